@@ -9,6 +9,7 @@ the run's PRNG against the model state and recorded; in replay/shrink mode the
 recorded list is re-executed through the same code path without any PRNG.
 """
 import hashlib
+import warnings
 
 from . import invariants
 from .model import ForestModel, children_truthy, is_nn
@@ -44,6 +45,8 @@ NODE_MENUS = (
     ("HNodeUnhash", "HNode"),
     ("HMixProxy",),
     ("HMixProxy", "HMix", "HSym"),
+    ("HNodeWords",),
+    ("HMixWords", "HNode"),
 )
 # only where navigation attributes are not the subject (the class re-uses the name `path` for itself)
 NODE_MENUS_STRUCT_ONLY = (("HMixPath",), ("HMixPath", "HMix"))
@@ -57,6 +60,7 @@ LIGHT_MENUS = (
     ("HLightBag", "HLightSub"),
     ("HLightNo",),
     ("HLightNo", "HLight"),
+    ("HLightWords",),
 )
 EXC_EXCEPTION = ("SimFault", "SimRuntime", "SimAssert", "SimLookup", "SimStop", "SimTreeError")
 EXC_ALL = EXC_EXCEPTION + ("SimCancel",)
@@ -100,6 +104,11 @@ class Result(object):
 
 
 # -- configuration -----------------------------------------------------------------
+
+
+# ordinary words used as names of keyword attributes in constructor calls
+KW_WORDS = ("index", "level", "key", "pos", "position", "order", "sort", "reverse", "strict", "deep", "unique", "check", "validate", "copy",
+            "before", "after", "first", "last", "id", "type", "kind", "data", "value", "weight", "label", "encoding", "sort_keys", "follow_symlinks")
 
 
 # names whose repr() carries formatting metacharacters: error messages are built from reprs
@@ -243,6 +252,7 @@ def gen_cfg(rng, prop, tier, allow_big=True):
         cfg["persist_spec"] = [[rng.choice(hooks), nodes, rng.choice(cfg["excs"])]]
     cfg["hook_super"] = rng.random() < 0.5  # the users' hook overrides also call the library's implementation
     cfg["odd_names"] = prop in ("C01", "C02", "C03", "C16") and rng.random() < 0.15
+    cfg["warn_error"] = prop in ("C01", "C03") and rng.random() < 0.1
     return cfg
 
 
@@ -406,7 +416,10 @@ def gen_op(rng, model, cfg, step):
         elif r < 0.55:
             op["xs"] = {"noniter": rng.choice(("int", "none", "zero"))}
         if cls in ("HNode", "HNodeEq", "HNodeBag", "HNodeNo", "HNodeInst", "HAny", "HMix", "HSym", "PNode", "PAny", "PSym") and rng.random() < 0.3:
-            op["attrs"] = {"foo": step}
+            # keyword attributes: data of the user's, whatever they are called
+            # (not in twin universes: the __slots__ twin has no room for them)
+            plain = rng.random() < 0.5 or cfg["prop"] not in ("C01", "C02", "C03", "C16", "C20")
+            op["attrs"] = {"foo": step} if plain else {rng.choice(KW_WORDS): rng.choice((0, 1, step, "s%d" % step, None, True))}
     prof = cfg["profile"]
     if cfg["prop"] == "C02" and op["op"] == "parent" and n_nodes > 2 and rng.random() < 0.06:
         exp = expect_of(model, op)
@@ -810,7 +823,13 @@ def run(cfg, ops=None, rng=None, extra=None, pre_gen=None, handle=None):
                     run_op = dict(op, f=dict(op["f"], act=safe))
                     res.bump("hook_actions_dropped_as_unsafe_here")
             try:
-                status, exc = exec_op(world, run_op)
+                if cfg.get("warn_error"):
+                    # the process runs with warnings turned into errors (python -W error, pytest filterwarnings=error)
+                    with warnings.catch_warnings():
+                        warnings.simplefilter("error")
+                        status, exc = exec_op(world, run_op)
+                else:
+                    status, exc = exec_op(world, run_op)
             except Watchdog as wd:
                 # no call on a forest of a dozen nodes takes this long: the call does not terminate
                 raise Violation(
